@@ -67,7 +67,7 @@ def impl_case(case):
             ok = size == 0
         else:
             ok = abs(float(size) - min(ex, math.exp(100))) <= 1e-9 * min(ex, math.exp(100))
-        if not ok:
+        if not ok and not case[-1] == "nosizecheck":
             raise AssertionError("space_size %r is not the (saturated) product %r" % (size, ex))
         return tuple(canon(c) for c in ms.choices_list), ms.choices_span, ex, len(ms.multichoices)
     if k == "constrain":
@@ -119,17 +119,19 @@ def in_space(choices, s):
 def oracle(case, out):
     k = case[0]
     if out[0] != "ok":
+        if len(out) > 2 and out[1] == "AssertionError" and "space_size" in str(out[2]):
+            return "space_size is not the product of the variant counts: %s" % (out[2],)
         return "implementation raised/hung: %r" % (out[:3],)
     o = out[1]
     if k == "localized":
-        full = impl_case(("choices", case[1]))[0]
+        full = impl_case(("choices", case[1], "nosizecheck"))[0]
         a, b = case[2], case[3]
         exp = tuple(c for c in full if a < b and c[0] < b and c[1] > a and c[0] < c[1])
         if tuple(o[0]) != exp:
             return "localized does not keep exactly the choices overlapping the location"
     elif k == "constrain":
         res, ans, log, again = o
-        choices = impl_case(("choices", case[1]))[0]
+        choices = impl_case(("choices", case[1], "nosizecheck"))[0]
         unsolvable = any(len(vs) == 0 for _, _, vs in choices)
         if res is None:
             return None if unsolvable else "unsolvable raised although every choice has a variant"
@@ -144,7 +146,7 @@ def oracle(case, out):
         if again[0] != res or again[1] != 0:
             return "constrain_sequence is not idempotent (or draws on an already compatible sequence)"
     elif k == "allvariants":
-        choices, span, ex, nm = impl_case(("choices", case[1]))
+        choices, span, ex, nm = impl_case(("choices", case[1], "nosizecheck"))
         s = case[2]
         if o is None:
             return None
@@ -276,6 +278,22 @@ def gen_cases(rng, tier):
             if ch[0] == "ok" and ch[1][2] <= 2000:
                 cases.append(("allvariants", d, t))
             cases.append(("apply", d, rng.choice([0, 1, 2, 2, 3, 7]), t))
+    for _ in range(40 * N):
+        # many multi-variant choices: the size is a product far beyond 2**63 (no overflow, no wrap)
+        m = rng.choice([20, 25, 26, 28, 30, 31, 32, 33, 40, 60])
+        codon_like = rng.random() < 0.5       # 6-variant choices only: 6**25 > 2**63
+        cs, pos = [], 0
+        for _ in range(m):
+            w = 3 if codon_like else rng.choice([1, 1, 3])
+            k = 6 if codon_like else (rng.choice([4, 4, 6, 6, 6, 3, 2]) if w == 3 else rng.choice([2, 3, 4, 4]))
+            vs = set()
+            while len(vs) < k:
+                vs.add(rdna(rng, w))
+            cs.append((pos, pos + w, tuple(sorted(vs))))
+            pos += w + rng.choice([0, 0, 1])
+        cases.append(("choices", ("raw", pos + 1, tuple(cs))))
+        a = rng.randint(0, pos // 3)
+        cases.append(("localized", ("raw", pos + 1, tuple(cs)), a, rng.randint(a + 1, pos + 1)))
     for _ in range(150 * N):
         # merge_with: self straddling several contiguous others
         widths = [rng.choice([1, 2, 3]) for _ in range(rng.choice([1, 2, 3]))]
